@@ -368,6 +368,9 @@ struct conf_node_string *conf_register_string(struct conf_node_object *parent, e
     struct conf_node_string *cnode;
 
     cnode = conf_register_node(parent, name, CONF_STRING, sizeof(*cnode));
+    /* The text remembered for a plain string means nothing to a typed one. */
+    if (cnode->subtype != subtype)
+        memset(&cnode->parsed, 0, sizeof(cnode->parsed));
     cnode->subtype = subtype;
     cnode->def_value = def_value;
     conf_parse_string_value(cnode);
@@ -754,6 +757,10 @@ static void conf_parse_entry(struct conf_parse *parse, struct conf_node_object *
             node = conf_parse_get_child(parent, name, CONF_STRING, sizeof(*node));
             xfree(node->value);
             node->value = string;
+            /* A node that comes from the file is a plain string: remember
+             * its text, so that reading the same content again is not
+             * taken for a change once the node is part of the live tree. */
+            node->parsed.p_string = string;
             if ((ch == '}') && (parent != &parse->root)) {
                 parse->curr--;
                 return;
